@@ -221,7 +221,8 @@ SEEDS = ["4x + 2x", "2x + 3y + x", "(x + 1) * 2", "2(x + 3) + 4x", "x * x^2 * 2"
          "x - 2 = 3", "9 - 2x = 3", "-x = 4 + x", "x / 2 = 4", "x^2 = 4 + x^2", "y + (x + 2) = 7", "sgn(x) + 2 = 3", "5 = 3 + 2", "x + x = 2x", "1/2 x = 3",
          "10^400 * 2 + x", "7^365 + 1 + x", "2^1030 * x + 2^1030 * x", "(10^200)^2 + y",
          "7 - (2 + x) = 3", "x = 10 - (y + 2 + z)", "4 - (x + 1) = y", "9 = 3 - (x - 2)", "2 * (x + 3) - (4 + x) = 1", "-(x + 2) = 5", "x / (2 + y) = 3",
-         "0^0.5 * x = 0", "(0.0^2)x = 0", "(4^0.5)x = 6", "(4 / 0)x + 2x", "(2 - 2) * x + 2x"] + rewrite.SHARED_ID_EQ_FORMS[:6] + rewrite.SHARED_ID_FORMS[:5]
+         "0^0.5 * x = 0", "(0.0^2)x = 0", "(4^0.5)x = 6", "(4 / 0)x + 2x", "(2 - 2) * x + 2x",
+         "x + x * y + 3", "x + (x * y + 3)", "2x + (x^2 * y + z)", "(3 + y * x) + x", "x + (x / y + 3) = 4", "(x * y) * (z + 2)", "(12 + r) * (s + t) = 5"] + rewrite.SHARED_ID_EQ_FORMS[:6] + rewrite.SHARED_ID_FORMS[:5]
 
 
 def norm_term(t):
